@@ -70,7 +70,7 @@ def run_real(rp, spec, ops):
 def gen(rng):
     nn  = rng.choice([1, 2, 2, 3, 4])
     nc  = rng.choice([2, 4, 4, 8])
-    ng  = rng.choice([0, 0, 1, 2])
+    ng  = rng.choice([0, 0, 1, 2, 4, 4])
     lfs = rng.choice([0, 100]); mem = rng.choice([0, 64])
     nodes = []
     for i in range(nn):
@@ -82,7 +82,8 @@ def gen(rng):
             h = rng.choice(live); live.remove(h); ops.append(['release', h])
         else:
             rr = {'n_cores': rng.choice([1, 1, 2, nc, rng.randint(1, nc)]), 'core_occ': rng.choice([U, U, U, 8, 4]),
-                  'n_gpus': rng.choice([0, 0, 1, ng]) if ng else 0, 'gpu_occ': rng.choice([U, U, 8]),
+                  # rank shapes with more GPUs than cores, GPUs partly taken by earlier requests
+                  'n_gpus': rng.choice([0, 0, 1, ng, max(1, ng - 1), 2 if ng >= 2 else 1]) if ng else 0, 'gpu_occ': rng.choice([U, U, U, 8]),
                   'lfs': rng.choice([0, 0, 30, 60]) if lfs else 0, 'mem': rng.choice([0, 0, 16, 40]) if mem else 0}
             if rng.random() < 0.04: rr['n_cores'] = rng.choice([0, nc + 1])
             n = rng.choice([1, 1, 2, 3, nn, nn * 2, nn * nc])
